@@ -22,7 +22,7 @@ from .c09 import oracle, pairs
 PID = "C18"
 VALUES = (None, 0, "")
 DECOS = ("plain", "guarded-parallel", "internal", "internal-actions", "multi-event",
-         "event-objects")
+         "event-objects", "attribute-events")
 
 
 def strip(x):
@@ -81,6 +81,15 @@ def make(n, edges, init, finals, deco, asyn=False, ids="s"):
         elif deco == "event-objects":
             st[a].to(st[b], event=[ns["e"], ns["f"]] if k % 2 else ns["e"])
             exp_edges[(SID[a], SID[b], "e f" if k % 2 else "e", "")] += 1
+        elif deco == "attribute-events":
+            # events named by the class attribute their transitions are assigned to; every
+            # second edge shares its attribute with the previous one (`|`)
+            if k % 2 and f"ev{k - 1}" in ns:
+                ns[f"ev{k - 1}"] = ns[f"ev{k - 1}"] | st[a].to(st[b])
+                exp_edges[(SID[a], SID[b], f"ev{k - 1}", "")] += 1
+            else:
+                ns[f"ev{k}"] = st[a].to(st[b])
+                exp_edges[(SID[a], SID[b], f"ev{k}", "")] += 1
         elif deco == "multi-event":
             st[a].to(st[b], event=["e", "f"] if k % 2 else "e f g")
             exp_edges[(SID[a], SID[b], "e f" if k % 2 else "e f g", "")] += 1
@@ -222,6 +231,28 @@ def worker(block):
                             if msg:
                                 res.violation({"category": _cat(msg), "of": "class", "deco": deco},
                                               dict(sc, of="class"), f"class diagram: {msg}")
+                                continue
+                            # a subclass that adds nothing, declared twice: its diagram and
+                            # (afterwards) the diagram of the class itself are the same picture
+                            from statemachine.factory import StateMachineMetaclass as _Meta
+                            with warnings.catch_warnings():
+                                warnings.simplefilter("ignore")
+                                sub = None
+                                for _ in range(2):
+                                    sub = _Meta("DSub", (cls,), {})
+                            msg = check_graph(DotGraphMachine(sub)(), exp, None)
+                            if msg:
+                                msg = "diagram of a subclass that adds nothing: " + msg
+                            else:
+                                msg = check_graph(DotGraphMachine(cls)(), exp, None)
+                                if msg:
+                                    msg = ("class diagram after two subclasses were declared: "
+                                           + msg)
+                            res.stats["transitions"] += 2
+                            if msg:
+                                res.violation({"category": _cat(msg), "of": "subclass",
+                                               "deco": deco}, dict(sc, of="subclass"),
+                                              f"class diagram: {msg}")
                                 continue
                             sm = cls()
                             kept = DotGraphMachine(sm)     # one renderer kept across the moves
@@ -372,6 +403,14 @@ def replay(sc):
     cls, exp = make(sc["n"], edges, sc["init"], set(sc["finals"]), sc["deco"], ids=ids)
     if sc["of"] == "class":
         return check_graph(DotGraphMachine(cls)(), exp, None)
+    if sc["of"] == "subclass":
+        from statemachine.factory import StateMachineMetaclass as _Meta
+        with warnings.catch_warnings():
+            warnings.simplefilter("ignore")
+            for _ in range(2):
+                sub = _Meta("DSub", (cls,), {})
+        return check_graph(DotGraphMachine(sub)(), exp, None) or \
+            check_graph(DotGraphMachine(cls)(), exp, None)
     sm = cls()
     kept = DotGraphMachine(sm)
     for cur in reachable(sc["n"], edges, sc["init"]):
